@@ -222,6 +222,9 @@ Params(kind, tx) ==
     [] kind = "redirect"    -> IF tx.dcout # <<>> THEN {T(kind, 0, "", 0, "", <<>>)} ELSE {}
     \* one of the contract's outputs left out of the transaction's real outputs (the amount becomes the client's change)
     [] kind = "cout_drop"   -> {T(kind, 0, "", j, "", <<>>) : j \in 1..Len(tx.rout)}
+    \* one of the contract's outputs pays 1 less among the real outputs / is frozen there (locked until a far block height)
+    [] kind = "cout_less"   -> {T(kind, 0, "", j, "", <<>>) : j \in {j \in 1..Len(tx.rout) : tx.rout[j].amt >= 2}}
+    [] kind = "cout_freeze" -> {T(kind, 0, "", j, "", <<>>) : j \in 1..Len(tx.rout)}
     [] kind = "cin_omit"    -> IF tx.dcin > 0 THEN {T(kind, 0, "", 0, "", <<>>)} ELSE {}
     [] kind = "cin_extra"   -> IF tx.dcin < NU THEN {T(kind, 0, "", 0, "", <<>>)} ELSE {}
     [] kind = "req_drop"    -> {T(kind, 0, "", 0, "", <<>>)}
@@ -251,6 +254,8 @@ Tampered(tx, t, k) ==
     [] t.tk = "ctr_alter"   -> [tx EXCEPT !.dcout[1].to = "a"]
     [] t.tk = "redirect"    -> [tx EXCEPT !.rout = <<[to |-> "a", amt |-> SumAmt(tx.dcout)]>>]
     [] t.tk = "cout_drop"   -> [tx EXCEPT !.rout = RemoveAt(@, t.j)]
+    [] t.tk = "cout_less"   -> [tx EXCEPT !.rout[t.j].amt = @ - 1]
+    [] t.tk = "cout_freeze" -> [tx EXCEPT !.rout[t.j].to = @ \o "!"]                  \* another output than the contract's: same receiver, frozen
     [] t.tk = "cin_omit"    -> [tx EXCEPT !.rin = 0]
     [] t.tk = "cin_extra"   -> [tx EXCEPT !.dcin = @ + 1, !.rin = @ + 1]      \* one more utxo of the vault declared and spent; the surplus is the client's change
     [] t.tk = "req_drop"    -> [tx EXCEPT !.hasreq = FALSE]
@@ -397,7 +402,7 @@ CommitExact ==
                              /\ bal.a = sub.bal0.a - amt - resp.gas /\ bal.c = sub.bal0.c + amt
 (* each single tampering that makes the transaction claim something its execution does not produce, or pay less, is refused *)
 MustReject == {"read_ver", "write_drop", "write_add", "write_val", "write_dup", "write_app", "limit_below", "fee_below", "amt_req", "amt_out",
-               "ev_alter", "ev_drop", "ctr_alter", "redirect", "cout_drop", "cin_omit", "cin_extra"}
+               "ev_alter", "ev_drop", "ctr_alter", "redirect", "cout_drop", "cout_less", "cout_freeze", "cin_omit", "cin_extra"}
 TamperRejected == (Done /\ sub.t.tk \in MustReject) => sub.res = "reject"
 (* a declared read that is not current *)
 StaleRejected == /\ (Done /\ il # 0 /\ sub.tx.rd[il] # Undecl) => sub.res = "reject"
